@@ -118,6 +118,70 @@ fn socket_case(addr: &str, chunks: &[Vec<u8>], delay_us: u64) -> String {
 /// One run of varlink::listen with a timed client history (C15).
 /// listen_run <idle_s> <stop: none|<ms>> <initial> <max> <svc..> | <t_ms>:<hold_ms>:<request chunk hex> ...
 ///   plus optional `steady:<from_ms>:<until_ms>:<every_ms>` clients that connect and close at once
+/// stoprace <trials> <svc..> | <request>: in each trial listen() runs with a stop flag; once the accept loop has
+/// settled in its poll the flag is set and a client connects at once and sends the request. A trial is conclusive
+/// if the connection was established within 50 ms of the flag being set and before listen() returned; the unchanged
+/// loop accepts such a connection and serves it to completion before returning.
+fn stoprace(rest: &[&str]) -> String {
+    use std::sync::atomic::{AtomicBool, Ordering};
+    use std::sync::Arc;
+    use std::time::Instant;
+    let trials: usize = rest[0].parse().unwrap();
+    let (st, reqs) = split_bar(&rest[1..]);
+    let spec = SvcSpec::parse(&st);
+    let req = unhex(reqs[0]);
+    let dir = std::env::var("VH_TMP").unwrap_or("/verif/.build/tmp".to_string());
+    let _ = std::fs::create_dir_all(&dir);
+    let (mut conclusive, mut served) = (0usize, 0usize);
+    let mut notes = Vec::new();
+    for _ in 0..trials {
+        let n = SOCK_N.fetch_add(1, Ordering::SeqCst);
+        let path = format!("{}/r-{}-{}.sock", dir, std::process::id(), n);
+        let addr = format!("unix:{}", path);
+        let stop = Arc::new(AtomicBool::new(false));
+        let svc = spec.build(false);
+        let (a2, s2) = (addr.clone(), stop.clone());
+        let t0 = Instant::now();
+        let server = std::thread::spawn(move || {
+            let _ = varlink::listen(
+                svc,
+                &a2,
+                &varlink::ListenConfig { initial_worker_threads: 1, max_worker_threads: 4, idle_timeout: 0, stop_listening: Some(s2) },
+            );
+            t0.elapsed().as_micros()
+        });
+        let deadline = Instant::now() + Duration::from_secs(5);
+        while !std::path::Path::new(&path).exists() && Instant::now() < deadline {
+            std::thread::sleep(Duration::from_millis(2));
+        }
+        std::thread::sleep(Duration::from_millis(135));
+        stop.store(true, Ordering::SeqCst);
+        let t_flag = t0.elapsed().as_micros();
+        let conn = UnixStream::connect(&path);
+        let t_conn = t0.elapsed().as_micros();
+        let mut got = Vec::new();
+        if let Ok(mut s) = conn {
+            let _ = s.write_all(&req);
+            let _ = s.shutdown(std::net::Shutdown::Write);
+            s.set_read_timeout(Some(Duration::from_secs(3))).unwrap();
+            let _ = s.read_to_end(&mut got);
+            let t_ret = server.join().unwrap_or(0);
+            if t_conn - t_flag < 50_000 && t_conn < t_ret {
+                conclusive += 1;
+                if got.ends_with(&[0]) {
+                    served += 1;
+                }
+            }
+            notes.push(format!("{}us/{}", t_conn - t_flag, got.len()));
+        } else {
+            let _ = server.join();
+            notes.push("refused".to_string());
+        }
+        let _ = std::fs::remove_file(&path);
+    }
+    format!("trials={} conclusive={} served={} notes={}", trials, conclusive, served, notes.join(","))
+}
+
 fn listen_run(rest: &[&str]) -> String {
     use std::sync::atomic::{AtomicBool, Ordering};
     use std::sync::Arc;
@@ -329,6 +393,7 @@ fn main() {
                     format!("outs={}", outs.join(";"))
                 }
                 "listen_run" => listen_run(rest),
+                "stoprace" => stoprace(rest),
                 "decode_request" => {
                     let f = unhex(rest[0]);
                     match serde_json::from_slice::<varlink::Request>(&f) {
